@@ -86,7 +86,7 @@ def model_check(ctx, prop, quick):
     ctx.set_cover(action_coverage={a: v for a, v in cov.coverage.items() if v[1] > 0 and a != "DepthBound"})
     # deep random behaviours
     module, cfg = mc_cfg(prop, 40, restart=restart, wait=wait, symmetry=False, reconnect=True)
-    sim = run_mc(ctx, "sim", module, cfg.replace("CONSTRAINT DepthBound\n", ""), simulate=(150 if quick else 4000),
+    sim = run_mc(ctx, "sim", module, cfg.replace("CONSTRAINT DepthBound\n", ""), simulate=(40 if quick else 1000),
                  depth=40, timeout=1200, workers=ctx.ncpu)
     if not sim.ok:
         ctx.machinery("simulation of the reference specification violates %s %s\n%s" % (sim.kind, sim.name, sim.out[-2500:]))
